@@ -5,6 +5,7 @@ import re
 
 from hypothesis import strategies as st
 
+from .. import worker as W
 from ..build import repo_path
 from ..oracle import panic_sig
 from ..runner import Failure, Outcome, enc
@@ -164,7 +165,11 @@ def run_source(src, ctx, tag, what):
     past_sig = False
     runs = 0
     for v in ("dbg", "rel"):
-        r = ctx.worker(v).run(src, budget=3_000_000, watchdog_s=40)
+        try:
+            r = ctx.worker(v).run(src, budget=3_000_000, watchdog_s=40)
+        except W.Inconclusive:
+            # the worker ran into its address space cap: neither a crash nor a clean outcome
+            return Outcome(discarded="memory-cap", runs=runs + 1)
         runs += 1
         fail, o = judge(r, src, "%s on %s" % (what, v), tag)
         if o == "watchdog":
@@ -332,6 +337,50 @@ def bad_superclass_sources():
     return out
 
 
+def native_as_callback_sources():
+    """Natives handed to natives as the callback: whatever the inner one does (end the program, raise on the argument it
+    gets, block) arrives in the outer one as the outcome of its callback."""
+    out = []
+    callbacks = ["exit", "print", "assert", "assertEq", "assertNe", "[].push", "[1, 2].pop", "\"s\".len", "\"a,b\".split",
+                 "Number.parse", "List.collect", "{}.get", "(1, 2).len", "5.times", "Error", "List", "[].iter().next",
+                 "chan(1).close", "print.call", "exit.call"]
+    sinks = {
+        "each": "[0, 1].iter().each(%s)", "map-list": "[0, 1].iter().map(%s).list()", "filter-list": "[0, 1].iter().filter(%s).list()",
+        "reduce": "[0, 1].iter().reduce(0, %s)", "all": "[0, 1].iter().all(%s)", "any": "[0, 1].iter().any(%s)",
+        "sort": "[2, 1, 0].sort(%s)", "into": "[0, 1].iter().into(%s)", "call": "(%s).call(0)",
+    }
+    for ci, cb in enumerate(callbacks):
+        for sn, sink in sorted(sinks.items()):
+            out.append(("native-callback-%d-%s" % (ci, sn),
+                        "try { print(%s); } catch e { print(e.cls().name()); }\nprint(\"end\");" % (sink % cb)))
+    return out
+
+
+def odd_channel_sources():
+    out = []
+    for vi, v in enumerate(["1e18", "1e10", "9007199254740993", "4294967296", "65536", "0", "-1", "0.5", "nil", "\"s\"", "[1]", "0/0", "1/0"]):
+        out.append(("chan-capacity-%d" % vi,
+                    "try { let c = chan(%s); print(c.capacity()); c <- 1; print(c.len()); print(<- c); c.close(); print(<- c); } "
+                    "catch e { print(e.cls().name()); }\nprint(\"end\");" % v))
+    return out
+
+
+def inconsistent_comparator_sources():
+    out = []
+    for n in (2, 3, 17, 64, 200, 500, 2000):
+        pre = "let l = [];\nfor i in %d.times() { l.push((i * 7919) - ((i * 7919 / 1000).floor() * 1000)); }\nlet n = 0;\n" % n
+        cmps = {
+            "cycle": "fn cmp(a, b) { n = n + 1; if n == 3 { n = 0; return 1; } if n == 1 { return -1; } return 0; }",
+            "always-less": "fn cmp(a, b) { return -1; }", "always-greater": "fn cmp(a, b) { return 1; }",
+            "first-arg": "fn cmp(a, b) { return a - 500; }",
+            "fails-late": "fn cmp(a, b) { n = n + 1; if n == %d { raise Error(\"late\"); } return a - b; }" % max(1, n - 1),
+            "fails-then-inconsistent": "fn cmp(a, b) { n = n + 1; if n == %d { return nil; } return b - a; }" % max(1, n // 2),
+        }
+        for cn, c in sorted(cmps.items()):
+            out.append(("sort-%s-%d" % (cn, n), pre + c + "\ntry { print(l.sort(cmp).len()); } catch e { print(e.message); }\nprint(\"end\");"))
+    return out
+
+
 def blocked_in_callback_sources():
     """A receive that can never complete, inside a callback run by a native: the deadlock has to be reported the same
     way as anywhere else."""
@@ -373,7 +422,8 @@ def recursion_sources():
 
 def extra(tier, ctx):
     out = []
-    for name, src in sorted(SHAPES.items()) + recursion_sources() + field_corruption_sources() + blocked_in_callback_sources() + bad_superclass_sources():
+    for name, src in sorted(SHAPES.items()) + recursion_sources() + field_corruption_sources() + blocked_in_callback_sources() + bad_superclass_sources() + \
+            native_as_callback_sources() + odd_channel_sources() + inconsistent_comparator_sources():
         o = run_source(src, ctx, "shape:" + name, "shape " + name)
         o.nontrivial = True
         o.labels = ["shape"]
